@@ -16,11 +16,16 @@ bash -c "$*" >> "$L" 2>&1; D0=$?
 git apply "$PATCH" || { echo '{"error":"patch does not apply"}'; exit 2; }
 echo "== demo with patch" >> "$L"
 bash -c "$*" >> "$L" 2>&1; D1=$?
+# the crate's own tests run without the demonstration files (untracked files outside out/ are moved aside)
+HOLD=$WT/out/_hold; rm -rf "$HOLD"; mkdir -p "$HOLD"
+git ls-files --others --exclude-standard | grep -v -E '^(out/|target)' > "$HOLD/list"
+tar cf "$HOLD/files.tar" -T "$HOLD/list" 2>/dev/null && xargs -a "$HOLD/list" rm -f
 T=0
 for c in ${CRATES//,/ }; do
   echo "== cargo test -p $c with patch" >> "$L"
   cargo test -p "$c" --offline >> "$L" 2>&1 || T=1
 done
+tar xf "$HOLD/files.tar" 2>/dev/null; rm -rf "$HOLD"
 echo "== cfg check" >> "$L"
 C=0
 for c in ${CRATES//,/ }; do RUSTFLAGS="--cfg libp2p_verif" cargo check -p "$c" --offline --target-dir "$WT/target-cfg" >> "$L" 2>&1 || C=1; done
